@@ -55,6 +55,12 @@ class DataDir:
                 if self._recs % 6 == 3:
                     status |= (256, 1 << 12, 1 << 31, 1 << 40)[(self._recs // 6) % 4]
         self.kvs[b'b' + h] = btc.index_record(ver, height, status, ntx, fileno, off, undo, hdr)
+        if status & btc.HAVE_DATA:
+            # what Bitcoin Core's per-file record ('f' + file number) says about this file: every block stored in it counts,
+            # on the active chain or not
+            fi = self.__dict__.setdefault('_finfo', {}).setdefault(fileno, [0, height, height])
+            fi[0] += 1
+            fi[1], fi[2] = min(fi[1], height), max(fi[2], height)
         return h
 
     def key(self, k, v):
@@ -62,9 +68,12 @@ class DataDir:
 
     def core_extras(self):
         """keys a real node also writes: file info, last file, reindex flag, flags"""
-        for fno in list(self.files)[:3]:
-            if fno < 2 ** 31:
-                self.kvs[b'f' + struct.pack('<I', fno)] = bytes([5, 4, 0, 0, 0])
+        # CBlockFileInfo: nBlocks, nSize, nUndoSize, nHeightFirst, nHeightLast, nTimeFirst, nTimeLast (seven VarInts)
+        for fno in list(self.files):
+            if fno < 2 ** 32:
+                n, lo, hi = getattr(self, '_finfo', {}).get(fno, [0, 0, 0])
+                size = sum(len(dta) for _, dta in self.files[fno])
+                self.kvs[b'f' + struct.pack('<I', fno)] = b''.join(btc.core_varint(x) for x in (n, size, 0, lo, hi, 1231006505, 1231006505 + 600 * n))
         self.kvs[b'l'] = struct.pack('<I', 0)
         self.kvs[b'R'] = b'\x00'
         self.kvs[b'F' + b'\x07txindex'] = b'1'
@@ -118,6 +127,11 @@ class DataDir:
                 if f.startswith('blk') and f.endswith('.dat') and os.path.isfile(full) and not os.path.islink(full) and (hsh[12] % 2 == 0 or (hsh[13] >> (k_ % 8)) & 1):
                     os.rename(full, os.path.join(cold, f))
                     os.symlink(os.path.join(cold, f), full)
+        if amb and hsh[14] % 3 == 0 and not os.path.exists(os.path.join(self.path, 'blk77777.dat')):
+            # a blk-named file that no record names and that only its owner could read (mode 000): it is never opened
+            with open(os.path.join(self.path, 'blk77777.dat'), 'wb') as f:
+                f.write(struct.pack('<II', self.magic, 81) + hsh * 6)
+            os.chmod(os.path.join(self.path, 'blk77777.dat'), 0)
         if amb and hsh[10] % 4 == 0:
             # a leftover copy of another node's blocks folder inside this one: sub-directories are named by no record
             sub = os.path.join(self.path, 'blocks')
